@@ -103,6 +103,8 @@ def step_to_coq(step: str) -> str:
         return f"DMsg {'true' if head[1] == '1' else 'false'} {coq_list(sops)}"
     if head[0] == "c":
         return f"DSetCond {'Oper' if head[1] == 'o' else 'Ques'} {int(val)}"
+    if head[0] in "bx":
+        raise ValueError("bit helpers are covered by the full-stack model only")
     if head[0] == "t":
         if val == "N":
             return "DSetTst None"
@@ -111,9 +113,31 @@ def step_to_coq(step: str) -> str:
     raise ValueError(step)
 
 
+def step_to_coq2(step: str) -> str:
+    """the same step for the full-stack model: messages as raw bytes"""
+    head, val = step.split(":", 1)
+    r = lambda c: "Oper" if c == "o" else "Ques"
+    if head[0] == "m": return "DMsg2 %s %s" % ("true" if head[1] == "1" else "false", coq_bytes(unhex(val)))
+    if head[0] == "c": return "DSetCond2 %s %d" % (r(head[1]), int(val))
+    if head[0] == "b": return "DSetBits2 %s %d" % (r(head[1]), int(val))
+    if head[0] == "x": return "DClrBits2 %s %d" % (r(head[1]), int(val))
+    if head[0] == "t":
+        if val == "N": return "DSetTst2 None"
+        code, _, _ = parse_error_spec(val)
+        return "DSetTst2 (Some %s)" % coq_Z(code)
+    raise ValueError(step)
+
+
 def coq_term(line: str) -> str:
+    """full-stack model on the raw bytes; when every message is covered by the template table the operation-level
+    model (the one the theorems are stated for) is evaluated too and must agree"""
     steps = [s for s in line.split(" ", 1)[1].split("|") if s]
-    return "run_dev " + coq_list([step_to_coq(s) for s in steps])
+    full = coq_list([step_to_coq2(s) for s in steps])
+    try:
+        ops = coq_list([step_to_coq(s) for s in steps])
+    except (ValueError, KeyError):
+        return "run_dev2 " + full
+    return "run_dev_both %s %s" % (full, ops)
 
 
 def msg_step(units, mav=False, nl=False):
@@ -176,7 +200,7 @@ def gen_history(rng, nsteps, weights, common_pool=None):
     for _ in range(nsteps):
         k = rng.choices(kinds, [weights[x] for x in kinds])[0]
         if k == "cond":
-            steps.append("c%s:%d" % (rng.choice("oq"), rand_u16(rng)))
+            steps.append("%s%s:%d" % (rng.choice("ccccbx"), rng.choice("oq"), rand_u16(rng)))
         elif k == "tst":
             steps.append("t:" + rng.choice(["N", "p-330", "p-300", "c77:62726f6b656e", "p-240"]))
         else:
